@@ -33,7 +33,7 @@ CHECKS = {
          "R-eval (harness/src/reval.rs) is the semantics of DESIGN.md A.7; gram's step budget is 20 x reference reductions + 200 (logical, not wall clock).",
          "DESIGN.md section 4, C02"),
  "C03": ("runtime monitor: an independent NbE type checker (R-core) judges every elaborated (term, type) pair; ill-typed perturbations must be rejected",
-         "Held on every execution observed: each pair returned by type_check on explicit, inferred, perturbed and edited (explicit and inferred, incl. planted wrong-type traps behind decoy definitions and scope-aware edits that put another variable in scope where one stood) and corpus programs, on all programs of <=5/6 nodes and on a 6360-cell matrix of higher-order polymorphic calls with written or omitted binder annotations was re-checked by R-core (scoping, typing, reported type); every explicit program R-core judges ill-typed was rejected with a diagnostic. Violations on programs with holes whose check passed an unresolved hole through open/signed_shift (hook counters) are the recorded finding.",
+         "Held on every execution observed: each pair returned by type_check on explicit, inferred, perturbed and edited (explicit and inferred, incl. planted wrong-type traps behind decoy definitions and scope-aware edits that put another variable in scope where one stood) and corpus programs, on all programs of <=5/6 nodes and on a 6360-cell matrix of higher-order polymorphic calls with written or omitted binder annotations was re-checked by R-core (scoping, typing, reported type); every explicit program R-core judges ill-typed - perturbed, edited, or a near-miss coercion (closed, under an integer parameter, polymorphic with alias groups between binders, variables of a context with kind aliases in type positions) - was rejected with a diagnostic. Violations on programs with holes whose check passed an unresolved hole through open/signed_shift (hook counters) are the recorded finding.",
          "R-core implements DESIGN.md A.5/A.6 with named closures (no de Bruijn arithmetic); reference fuel exhaustion is inconclusive.",
          "DESIGN.md section 4, C03"),
  "C04": ("runtime monitor: head-shape table and full reference re-check of the evaluated value against the reported type",
@@ -41,11 +41,11 @@ CHECKS = {
          "R-core is the typing reference; programs that do not produce a value within the step budget are not judged.",
          "DESIGN.md section 4, C04"),
  "C05": ("runtime monitor: reference verdict and intended type on type-directed explicit programs versus gram's; exact structural diff of parse output and elaborated term",
-         "Held on every execution observed: every generated fully annotated program that R-core accepts was accepted by gram with a type convertible both to R-core's and to the generator's intended type; every explicit program that R-core still accepts after 1-3 scope-aware edits (other variables in scope, neighbouring literals, operators of the same class, definitions and applied binders put around a node, annotations and domains named by an alias of their own group) was accepted with a type convertible to R-core's; for every accepted program the elaborated term equals the parsed term except where the source had a hole or omitted annotation. A worker death on an explicit program counts as a violation.",
+         "Held on every execution observed: every generated fully annotated program that R-core accepts was accepted by gram (a definition-order diagnostic on such a program, which the reference interpreter runs without needing an unavailable definition, counts as a false rejection) with a type convertible both to R-core's and to the generator's intended type; every explicit program that R-core still accepts after 1-3 scope-aware edits (other variables in scope, neighbouring literals, operators of the same class, definitions and applied binders put around a node, annotations and domains named by an alias of their own group) was accepted with a type convertible to R-core's; for every accepted program the elaborated term equals the parsed term except where the source had a hole or omitted annotation. A worker death on an explicit program counts as a violation.",
          "Two independent expectations (R-core, generator). Syntactic rejections of a printed program are not this property's subject and are counted as inconclusive (0 observed).",
          "DESIGN.md section 4, C05"),
  "C06": ("runtime monitor: evaluator trace from the harness's step loop versus normalize_weak_head/unify; symmetry; agreement with reference normal forms",
-         "Held on every execution observed: unify(t,t); unify(t, t') in both directions where t' is t with subterms behind already solved holes (shift 0-3), and whnf(t') = the evaluated literal; unify(t, reduct) in both directions for the first 30 reducts; whnf of ground programs equals the evaluated literal (generated programs and every operator on every pair of 27 operands incl. the machine-integer edges); unify(a,b)=unify(b,a)=equality of R-core normal forms on pairs of same-typed hole-free terms.",
+         "Held on every execution observed: unify(t,t); unify(t, t') in both directions where t' is t with subterms behind already solved holes (shift 0-3), and whnf(t') = the evaluated literal; unify(t, reduct) in both directions for the first 30 reducts; whnf of ground programs equals the evaluated literal, evaluation is never stuck where whnf computes a literal, and no worker dies (stack exhaustion) while normalising or unifying a program whose evaluation has ended (generated programs and every operator on every pair of 27 operands incl. the machine-integer edges); unify(a,b)=unify(b,a)=equality of R-core normal forms on pairs of same-typed hole-free terms.",
          "Hole-free terms only; non-normalising pairs are skipped by construction or inconclusive on the watchdog.",
          "DESIGN.md section 4, C06"),
  "C07": ("runtime monitor: differential against an independent chart parser that reads grammar.y at run time (accept/reject, derivation count, left-associated tree)",
